@@ -324,11 +324,17 @@ fn stream_sparse(rep: &mut Report, m: &mut Model, root: &Rng, scale: u64) {
         rep.case("sparse.dense", if sv.nnz() >= 1 && sv.nnz() < n { Some(&txt) } else { None });
 
         // from_parts: unsorted, duplicate, zero and out-of-range positions
-        let dim = 1 + r.below(12) as usize;
-        let k = r.below(8) as usize;
-        let ps: Vec<u32> = (0..k).map(|_| if r.chance(1, 12) { dim as u32 + r.below(3) as u32 } else { r.below(dim as u64) as u32 }).collect();
-        let kv = if r.chance(1, 6) { r.below(8) as usize } else { k };
-        let vs: Vec<u32> = (0..kv).map(|_| gen_bits(&mut r)).collect();
+        // one case in ten is WIDE: 30..200 writes over 8..64 positions, every value distinct and non-zero, so that
+        // many positions are written several times and the order of equal positions decides the result (a sort that
+        // is not stable only shows on inputs this long: std's sort_unstable is insertion sort below ~20 elements)
+        let wide = r.chance(1, 10);
+        let dim = if wide { 8 + r.below(57) as usize } else { 1 + r.below(12) as usize };
+        let k = if wide { 30 + r.below(171) as usize } else { r.below(8) as usize };
+        let ps: Vec<u32> = (0..k).map(|_| if !wide && r.chance(1, 12) { dim as u32 + r.below(3) as u32 } else { r.below(dim as u64) as u32 }).collect();
+        let kv = if !wide && r.chance(1, 6) { r.below(8) as usize } else { k };
+        #[allow(clippy::cast_precision_loss)]
+        let vs: Vec<u32> = (0..kv).map(|i| if wide { ((i + 1) as f32).to_bits() } else { gen_bits(&mut r) }).collect();
+        if wide { rep.hit("sparse.parts.wide"); }
         let vs_f: Vec<f32> = vs.iter().map(|b| f32::from_bits(*b)).collect();
         let line = format!("sp_from_parts {dim} {} {}", show_u32s(&ps), show_u32s(&vs));
         let real = SparseVector::try_from_parts(dim, ps.clone(), vs_f.clone());
@@ -368,6 +374,19 @@ fn stream_sparse(rep: &mut Report, m: &mut Model, root: &Rng, scale: u64) {
         let built = b.build();
         rep.compare("sparse.build", || json!({"dim": dim, "pos": show_u32s(&ps), "vals": show_u32s(&vs)}), &show_sv(&built),
             &m.ask(&format!("sp_build {dim} {} {}", show_u32s(&ps), show_u32s(&vs[..vs.len().min(ps.len())]))));
+        // property: the built vector's dense image is the pushes applied in order (last write wins); the builder
+        // does not range-check (a position >= dimension gives a vector whose to_dense panics: the model says so too)
+        if ps.iter().all(|p| (*p as usize) < dim) {
+            let mut want = vec![0u32; dim];
+            for (p, v) in ps.iter().zip(vs.iter()) { if (*p as usize) < dim && v & 0x7FFF_FFFF != 0 { want[*p as usize] = *v; } }
+            let got: Vec<u32> = built.to_dense().iter().map(|x| x.to_bits()).collect();
+            // a zero pushed after a non-zero at the same position is skipped by push, so the earlier value stays: the
+            // specification above mirrors that (zeros are not writes)
+            if got != want {
+                rep.violation("tensor_store.sparse_vector.builder/dense_image_wrong", "to_dense(build()) is not the pushes applied in order (last write wins)",
+                    json!({"dim": dim, "pos": show_u32s(&ps), "vals": show_u32s(&vs)}));
+            }
+        }
 
         // decoded (unvalidated) vectors: validator verdict, then the accessors must not panic
         let dim2 = r.below(10) as usize;
